@@ -762,7 +762,7 @@ func c07Count(c *core.Ctx) {
 	}
 	if ins := c.Fn("R7.9", "fw/table", "PitCsTree", "InsertData"); ins != nil {
 		var evicts, updates []ssa.Instruction
-		core.Instrs(ins, func(in ssa.Instruction) {
+		core.InstrsDeep(ins, func(in ssa.Instruction) { // (the new-entry branch may be a worker)
 			if ci, ok := in.(ssa.CallInstruction); ok && ci.Common().IsInvoke() && ci.Common().Method.Name() == "EvictEntries" {
 				evicts = append(evicts, in)
 			}
@@ -773,7 +773,7 @@ func c07Count(c *core.Ctx) {
 		bad := ""
 		for _, u := range updates {
 			for _, e := range evicts {
-				if core.ReachableFrom(core.After(u), e) {
+				if (u.Parent() == e.Parent() && core.ReachableFrom(core.After(u), e)) || (u.Parent() != e.Parent() && core.ReachableAfterDeep(ins, u, e)) {
 					bad = c.Pos(u)
 				}
 			}
